@@ -177,6 +177,7 @@ PINNED = {
     "lemoncheesecake/reporting/backends/json_.py": {"save_report_into_file": None, "load_report_from_file": None},
     "lemoncheesecake/reporting/report.py": {"format_time_as_iso8601": None, "parse_iso8601_time": None},
     "lemoncheesecake/reporting/loader.py": {"load_report_from_file": None},
+    "lemoncheesecake/reporting/backend.py": {"atomic_write": None},
 }
 
 
@@ -1684,13 +1685,14 @@ PINNED_HASHES = {
     "lemoncheesecake/reporting/backends/xml.py:make_xml_node": "edf58ca712206c96",
     "lemoncheesecake/reporting/backends/xml.py:make_xml_child": "6793b4b5259f09d6",
     "lemoncheesecake/reporting/backends/xml.py:serialize_report_as_string": "bfc5328e0cf8ea32",
-    "lemoncheesecake/reporting/backends/xml.py:save_report_into_file": "0013a336dab8cee5",
+    "lemoncheesecake/reporting/backends/xml.py:save_report_into_file": "134b0048f37e98b4",
     "lemoncheesecake/reporting/backends/xml.py:load_report_from_file": "18ab9b543b63a5c4",
-    "lemoncheesecake/reporting/backends/json_.py:save_report_into_file": "2b1664046a7f4eec",
+    "lemoncheesecake/reporting/backends/json_.py:save_report_into_file": "36735d542efc50a0",
     "lemoncheesecake/reporting/backends/json_.py:load_report_from_file": "ea56b12d87fbfa5a",
     "lemoncheesecake/reporting/report.py:format_time_as_iso8601": "c4f671501622e1d4",
     "lemoncheesecake/reporting/report.py:parse_iso8601_time": "987a56db3d594636",
-    "lemoncheesecake/reporting/loader.py:load_report_from_file": "8d65d0ce612e02bd"
+    "lemoncheesecake/reporting/loader.py:load_report_from_file": "8d65d0ce612e02bd",
+    "lemoncheesecake/reporting/backend.py:atomic_write": "abbabe26ef202b00"
 }
 
 
